@@ -74,6 +74,13 @@ MenuDry == Installs({"cA", "cH"}, B, B, B, B, B) \cup CRDInstalls(B, B, B, B) \c
 \* every short real history (incl. an uninstalled last revision)
 MenuDryEnum == Installs({"cH"}, B, F, F, F, B) \cup Upgrades({"cI"}, F, F, {0, 1}, F, F, B)
                \cup Rollbacks({0}, {0}, F, F, B) \cup Uninstalls(B, F, B)
+\* cluster family: every sequence of three operations with one out-of-band step anywhere in between
+MenuClusterEnum == Installs({"cA"}, F, F, F, F, F) \cup Upgrades({"cA", "cB", "cC"}, F, F, {0}, F, F, F) \cup Rollbacks({0}, {0}, F, F, F)
+EditsClusterEnum == {[kind |-> "edit", res |-> "r1", field |-> "f1", value |-> "z"],
+                     [kind |-> "oobdel", res |-> "r2", field |-> "", value |-> ""],
+                     [kind |-> "oobkeep", res |-> "r2", field |-> "", value |-> ""],
+                     [kind |-> "oobnew", res |-> "r2", field |-> "", value |-> "none"],
+                     [kind |-> "oobnew", res |-> "r3", field |-> "", value |-> "none"]}
 MenuLedgerEnum == Installs({"cA"}, B, F, F, F, F) \cup Upgrades({"cB"}, F, F, {0, 2}, F, F, F) \cup Rollbacks({0, 1}, {0}, F, F, F)
                   \cup Uninstalls(B, F, F) \cup UpInstalls({"cB"}, F, F, F, F, F)
 MenuHooksEnum == {U("test", "none")} \cup Installs({"cH", "cJ"}, F, F, B, F, F) \cup Upgrades({"cI", "cJ"}, F, F, {0}, F, F, F) \cup Rollbacks({0}, {0}, F, F, F)
